@@ -92,6 +92,7 @@ def make_model_class():
         def solve_t_after(self, t, **kw):
             self.__dict__['v_log'].append(('after', t, kw.get('iteration'), dict(kw)))
             self._fault(self.__dict__['v_after_fault'], t)
+            self._fault((self.__dict__.get('v_after_fault_by_t') or {}).get(t if t >= 0 else t + len(self.span)), t)      # a post-hook fault in one period only
 
         def _evaluate(self, t, *, iteration=None, **kw):
             d = self.__dict__
